@@ -417,6 +417,10 @@ impl<S, V> LoadContractCodeCtx<'_, S, V> {
         *self.sp = new_sp;
         *self.ssp = new_sp;
 
+        // Only `length_unpadded` bytes are copied from the contract; the alignment
+        // padding must be zeroes, not the bytes that follow in the contract.
+        let copy_end = usize::try_from(contract_offset.saturating_add(length_unpadded))
+            .unwrap_or(usize::MAX);
         copy_from_storage_zero_fill::<ContractsRawCode, _>(
             self.memory,
             owner,
@@ -425,7 +429,7 @@ impl<S, V> LoadContractCodeCtx<'_, S, V> {
             length,
             &contract_id,
             contract_offset,
-            contract_len,
+            contract_len.min(copy_end),
             PanicReason::ContractNotFound,
         )?;
 
@@ -501,6 +505,10 @@ impl<S, V> LoadContractCodeCtx<'_, S, V> {
         *self.ssp = new_sp;
 
         // Copy the code.
+        // Only `length_unpadded` bytes are copied from the blob; the alignment
+        // padding must be zeroes, not the bytes that follow in the blob.
+        let copy_end = usize::try_from(blob_offset.saturating_add(length_unpadded))
+            .unwrap_or(usize::MAX);
         copy_from_storage_zero_fill::<BlobData, _>(
             self.memory,
             owner,
@@ -509,7 +517,7 @@ impl<S, V> LoadContractCodeCtx<'_, S, V> {
             length,
             &blob_id,
             blob_offset,
-            blob_len,
+            blob_len.min(copy_end),
             PanicReason::BlobNotFound,
         )?;
 
